@@ -101,7 +101,7 @@ def table():
         cr = meta.get('check_result', {})
         ec = cr.get('exit')
         out = {0: '**MISSED**', 1: '**detected**', 2: 'undecided (exit 2)'}.get(ec, '?')
-        rnd = '5' if '-v' in name else '4' if '-u' in name else '3' if '-t' in name else ('2' if '-r' in name else '1')
+        rnd = '6' if '-w' in name else '5' if '-v' in name else '4' if '-u' in name else '3' if '-t' in name else ('2' if '-r' in name else '1')
         rows.append((name, rnd, out, (cr.get('first_reported_obligation') or '').replace('|', '\\|')[:130]))
     print('| change | round | outcome | first refuted obligation / reason |')
     print('|---|---|---|---|')
